@@ -95,7 +95,7 @@ pub fn prog_jit(u: &mut Unstructured) -> Result<FuzzProg> {
     let nupd = u.int_in_range(1usize..=20)?;
     let mut upd = vec![];
     for _ in 0..nupd {
-        upd.push(crate::bf::Upd { a_off: u.int_in_range(0u8..=2)?, b_off: u.int_in_range(0u8..=3)?, f: u.int_in_range(0u8..=11)?, k: u.int_in_range(0u8..=2)?, clear: u.ratio(3u8, 4u8)? })
+        upd.push(crate::bf::Upd { a_off: u.int_in_range(0u8..=2)?, b_off: u.int_in_range(0u8..=3)?, f: u.int_in_range(0u8..=15)?, k: u.int_in_range(0u8..=2)?, clear: u.ratio(3u8, 4u8)? })
     }
     let big = if u.ratio(1u8, 6u8)? { Some((u.int_in_range(0u8..=19)?, u.int_in_range(0u8..=2)?, u.int_in_range(0u8..=5)?)) } else { None };
     let w = crate::bf::WideProg {
